@@ -82,6 +82,8 @@ fn alphabet<Q: QueueApi>(u: u32, r: i64, m: &Model, wide: bool) -> Vec<Op> {
     }
     v.push(Op::Convert);
     v.push(Op::CloneSwap);
+    v.push(Op::CloneFrom { pre: vec![] });
+    v.push(Op::CloneFrom { pre: vec![(7, 1), (8, 0), (9, 2), (10, 1), (11, 0)] });
     v.push(Op::Drain { front: 1, back: 1, leak: false });
     v.push(Op::Clear);
     v.push(Op::Shrink);
